@@ -150,6 +150,58 @@ func factsOf(conds []Cond, about ...*Val) []intFact {
 
 // boundsOf derives integer bounds of the affine expression d from single facts: d = ±G + k.
 func boundsOf(d *Affine, fs []intFact) (lo, hi *int64) {
+	lo, hi = boundsOf1(d, fs)
+	if (lo == nil || hi == nil) && !d.Top && len(fs) >= 2 && len(fs) <= 48 {
+		// two facts chained: i < n and n <= 32 give i < 32 (sums of pairs of facts are facts)
+		var sums []intFact
+		for i := 0; i < len(fs); i++ {
+			for j := i + 1; j < len(fs); j++ {
+				a, b := fs[i], fs[j]
+				if a.G == nil || b.G == nil || a.G.Top || b.G.Top {
+					continue
+				}
+				for _, sgn := range []int64{1, -1} {
+					g := a.G.Add(b.G, sgn)
+					if g.Top || len(g.Term) >= len(a.G.Term)+len(b.G.Term) {
+						continue // nothing cancelled: not a chain
+					}
+					f := intFact{G: g}
+					bl, bh := b.Lo, b.Hi
+					if sgn < 0 {
+						bl, bh = nil, nil
+						if b.Hi != nil {
+							bl = i64(-*b.Hi)
+						}
+						if b.Lo != nil {
+							bh = i64(-*b.Lo)
+						}
+					}
+					if a.Lo != nil && bl != nil {
+						f.Lo = i64(*a.Lo + *bl)
+					}
+					if a.Hi != nil && bh != nil {
+						f.Hi = i64(*a.Hi + *bh)
+					}
+					if f.Lo != nil || f.Hi != nil {
+						sums = append(sums, f)
+					}
+				}
+			}
+		}
+		if len(sums) > 0 {
+			l2, h2 := boundsOf1(d, sums)
+			if l2 != nil && (lo == nil || *l2 > *lo) {
+				lo = l2
+			}
+			if h2 != nil && (hi == nil || *h2 < *hi) {
+				hi = h2
+			}
+		}
+	}
+	return
+}
+
+func boundsOf1(d *Affine, fs []intFact) (lo, hi *int64) {
 	if d.Top {
 		return nil, nil
 	}
